@@ -69,18 +69,20 @@ Print Assumptions C05_floor_refuted.
    The model writes a conversion quantity as EQty (-d) q (-3), "unit to/from, not tabulated"; inference needs
    that unit, so the statement is about a decoration e'' of the output (erase e'' = e'): each conversion quantity
    gets a fresh index into the extended unit table utab G ++ D holding its unit to/from; Th is any further
-   extension.  Guard: [pure G] (no base unit without dimension such as pint's radian) and [strictb G e]
-   (real-valued: relations / And / Or only as piecewise conditions; no floor / ceiling; every function unary --
-   strict inference has no rule for Max / Min / Mod; every exponent a number literal or a quantity whose unit is
-   literally dimensionless -- compound exponents and exponents in scaled units are tested by the oracle only).
+   extension.  Guard [strictb G e]: real-valued (relations / And / Or only as piecewise conditions); no floor /
+   ceiling; every function unary (strict inference has no rule for Max / Min / Mod: C05_result_infers_refuted);
+   every exponent a number literal or a quantity whose unit has no dimension and scale 1, whatever its name
+   (compound exponents and exponents in scaled units such as percent are tested by the oracle only).
+   No condition on the environment any more: since the radian repair "equivalent" is [sem_equiv] = same
+   dimension part and same scale, a dimension-less base unit such as radian is ignored.
    Under the guard strict inference NEVER raises a UnitError on the result and any unit it returns is equivalent
    to the returned units; what remains possible is a Python exception from magnitude arithmetic (known finding
    result-fails-strict-inference-magnitude) or a case the model declines: [no_python_exception]. *)
 Theorem C05_result_infers_partial : forall G e to e' c u,
-  convert G e to = UOk (e', c, u) -> pure G = true -> strictb G e = true ->
+  convert G e to = UOk (e', c, u) -> strictb G e = true ->
   exists D e'', erase (tabN G) e'' = e' /\
     forall Th, match infer (ext G (D ++ Th)) e'' with
-               | UOk r => ueq (expand G (fst r)) (expand G u)
+               | UOk r => sem_equiv G (fst r) u = true
                | UErr _ => False
                | UOther | UUnsupp => True
                end.
@@ -88,30 +90,37 @@ Proof. exact result_infers_partial. Qed.
 Print Assumptions C05_result_infers_partial.
 
 Theorem C05_result_infers : forall G e to e' c u,
-  convert G e to = UOk (e', c, u) -> pure G = true -> strictb G e = true ->
+  convert G e to = UOk (e', c, u) -> strictb G e = true ->
   exists D e'', erase (tabN G) e'' = e' /\
     forall Th, no_python_exception (ext G (D ++ Th)) e'' = true ->
-      exists r, infer (ext G (D ++ Th)) e'' = UOk r /\ ueq (expand G (fst r)) (expand G u).
+      exists r, infer (ext G (D ++ Th)) e'' = UOk r /\ sem_equiv G (fst r) u = true.
 Proof. exact result_infers. Qed.
 Print Assumptions C05_result_infers.
 
-Theorem C05_result_infers_refuted :
+(* the two counter-examples repaired in /repo (radian next to dimensionless; exponent in a named unit equal to
+   dimensionless) are now inside the theorem: *)
+Theorem C05_result_infers_repaired :
   (let e := EAdd [EVar 0; EVar 1] in
-   convert G_rad e None = UOk (e, false, [(0%Z, 1%Q)]) /\ strictb G_rad e = true /\ pure G_rad = false /\
-   infer G_rad e = UErr EInvalidUnits) /\
+   convert G_rad e None = UOk (e, false, [(0%Z, 1%Q)]) /\ strictb G_rad e = true /\
+   infer G_rad e = UOk ([(0%Z, 1%Q)], MVar)) /\
   (let e := EPow (EVar 0) (EQty 0 2 1) in
-   exists u, convert G_one e None = UOk (e, false, u) /\ pure G_one = true /\ homog e = true /\ strictb G_one e = false /\
-   infer G_one e = UErr EMustBeDimensionless) /\
-  (let e := EFn fn_max [EQty 0 1 0; EQty 1 2 0] in
-   convert G_one e None = UOk (e, false, []) /\ pure G_one = true /\ homog e = true /\ strictb G_one e = false /\
-   infer G_one e = UErr EUnexpectedMath).
+   convert G_one e None = UOk (e, false, upow [(1%Z, 1%Q)] 2) /\ strictb G_one e = true /\
+   exists r, infer G_one e = UOk r /\ sem_equiv G_one (fst r) (upow [(1%Z, 1%Q)] 2) = true).
+Proof. exact result_infers_repaired. Qed.
+Print Assumptions C05_result_infers_repaired.
+
+(* still outside the guard and really rejected: Max of two arguments (outside the operators C05 quantifies over) *)
+Theorem C05_result_infers_refuted :
+  let e := EFn fn_max [EQty 0 1 0; EQty 1 2 0] in
+  convert G_one e None = UOk (e, false, []) /\ homog e = true /\ strictb G_one e = false /\
+  infer G_one e = UErr EUnexpectedMath.
 Proof. exact result_infers_refuted. Qed.
 Print Assumptions C05_result_infers_refuted.
 
 (* the hypotheses of C05_result_infers are satisfiable with a real conversion inside a sum inside a product:
    (a[mV] + b[volt]) * a  becomes  (a + _1000[mV/volt] * b) * a  in mV * mV, and strict inference returns mV * mV *)
 Example C05_result_infers_example :
-  pure G_x = true /\ strictb G_x e_x = true /\
+  strictb G_x e_x = true /\
   convert G_x e_x None = UOk (e_x', true, u_x) /\
   erase (tabN G_x) e_x'' = e_x' /\ no_python_exception (ext G_x D_x) e_x'' = true /\
   exists r, infer (ext G_x D_x) e_x'' = UOk r /\ sem_equiv G_x (fst r) u_x = true.
